@@ -290,22 +290,33 @@ def multitensor_probe(fggs, M, I, rng, viols, obs):
         snap = {k: (A.densify_pt(v).clone(), v.physical._version) for k, v in a.items()}
         snapb = {k: (A.densify_pt(v).clone(), v.physical._version) for k, v in b.items()}
         keys = set(a.keys())
-        c = a.clone()
         ops = []
         try:
-            c += b; ops.append('+=')
-            c.maximum_(b) if S != 'bool' else None; ops.append('maximum_')
-            c.copy_(b); ops.append('copy_')
+            # each in-place operation is applied to its own fresh clone, first thing after cloning
+            c = a.clone(); c.copy_(b); ops.append('copy_')
+            c = a.clone()
             for k in list(c):
-                c[k].physical.zero_() if c[k].physical.numel() and not c[k].physical.requires_grad else None
-            ops.append('zero_ blocks')
-            c2 = a.clone()
-            c2 -= a if S != 'bool' else a; ops.append('-=')
+                if c[k].physical.numel() and not c[k].physical.requires_grad:
+                    c[k].physical.zero_()
+                c[k].default = 5
+            ops.append('block.physical.zero_ / block.default=')
+            c = a.clone()
+            for k in list(c):
+                c[k].copy_(rnd(shapes[k]))
+            ops.append('block.copy_')
+            c = a.clone(); c += b; ops.append('+=')
+            for k in list(c):
+                c[k].physical.zero_() if c[k].physical.numel() else None
+            if S != 'bool':
+                c = a.clone(); c.maximum_(b); ops.append('maximum_')
+            c = a.clone(); c -= a; ops.append('-=')
             d = a + b; ops.append('+')
             for k in list(d):
-                d[k].physical.fill_(True if S == 'bool' else 7.0) if d[k].physical.numel() else None
+                if k in a and d[k].physical.numel():
+                    d[k].physical.fill_(True if S == 'bool' else 7.0)
+            d = a - a; ops.append('-')
         except Exception as e:
-            pass
+            ops.append(f'({type(e).__name__}: {e})'[:120])
         obs['multitensor_probes'] += 1
         # the property speaks about the *source of the clone* (a); blocks of the other operand b may be shared by a result
         for nm, mt, sn in (('a', a, snap),):
